@@ -54,7 +54,7 @@ let split_on_semis line =
 
 let do_bs line =
   match split_on_semis line with
-  | ("bs" :: wbuf :: rbuf :: sched :: wfail :: rfail :: _) :: ops ->
+  | ("bs" :: wbuf :: rbuf :: sched :: wfail :: rfail :: more) :: ops ->
     let out = Buffer.create 256 in
     let add s = Buffer.add_string out s; Buffer.add_char out ' ' in
     let wf = Z.of_string wfail in
@@ -79,6 +79,9 @@ let do_bs line =
     add ("C" ^ sn (K.o_calls !w));
     let sched = if sched = "-" then [] else List.map ns (String.split_on_char ',' sched) in
     let rfz = Z.of_string rfail in
+    let cut = match more with c :: _ -> int_of_string c | [] -> -1 in
+    let rec take k l = if k <= 0 then [] else match l with [] -> [] | x :: t -> x :: take (k - 1) t in
+    let sink = if cut >= 0 then take cut sink else sink in
     let src = { K.src_data = sink; K.src_sched = sched; K.src_failat = (if Z.sign rfz > 0 then Some (n_of_zar rfz) else None); K.src_calls = K.N0 } in
     let r = ref (K.new_ibs (ns rbuf) src) in
     List.iter (fun o ->
